@@ -139,6 +139,17 @@ Proof.
   induction 1 as [|o b0 l bs Ho _ IH]; [reflexivity|]. subst o. cbn [opt_concat concat]. rewrite IH. reflexivity.
 Qed.
 
+(* a nil pointer under an array or map schema: the empty collection, one zero byte *)
+Lemma empty_coll_canon : forall c s d, wire c s -> is_empty_coll c = Some d ->
+  coll c = true /\ canon_encode s d = [0].
+Proof.
+  induction c using codec_ind'; intros s d W Hd; try discriminate.
+  - cbn in Hd. injection Hd as <-. destruct s; try contradiction. split; reflexivity.
+  - cbn in Hd. injection Hd as <-. destruct s; try contradiction. split; reflexivity.
+  - cbn [wire] in W. cbn [is_empty_coll] in Hd. cbn [coll]. eapply IHc; eauto.
+  - cbn [wire] in W. cbn [is_empty_coll] in Hd. cbn [coll]. eapply IHc; eauto.
+Qed.
+
 Theorem write_canon : forall c s v d,
   wire c s -> datum_of c s v = Some d -> c_write c v = Some (canon_encode s d).
 Proof.
@@ -209,7 +220,7 @@ Proof.
   - (* pointer *)
     cbn [wire] in W. cbn [datum_of] in Hd. destruct v; try discriminate. destruct v as [x|].
     + cbn [c_write]. eapply IHc; eauto.
-    + destruct c; try discriminate; cbn in Hd; injection Hd as <-; cbn [wire] in W; destruct s; try contradiction; reflexivity.
+    + cbn [c_write]. destruct (empty_coll_canon c s d W Hd) as [-> ->]. reflexivity.
   - discriminate.
   - (* null + one *)
     cbn [wire] in W. destruct s; try contradiction. destruct branches as [|x1 [|x2 [|? ?]]]; try contradiction.
